@@ -6,6 +6,7 @@ from ..tables import t6_transforms
 def run(ctx: Ctx) -> None:
     t6_transforms.run_histories(ctx, max_len=2 if ctx.tier == "quick" else 3)
     t6_transforms.run_regrid(ctx)
+    t6_transforms.run_unlink_slot(ctx)
     t6_transforms.run_composite_histories(ctx)
     from ..tables import t67_transforms
     with ctx.only("T67.inverse-velocity"), ctx.parallel():  # inverse / link creation followed by reading the buffered field (shared with C07)
